@@ -121,8 +121,9 @@ def e2e_case(rng):
         uses[nd['name']] = uses.get(nd['name'], 0) + 1
     string = G.to_string(ast) + '.{' + ','.join('#%s=%s' % kv for kv in units.items()) + '}'
     from .. import oracles
-    return dict(kind='e2e', string=string, base_expect=[oracles.expected_attrs(nd) for nd in nodes], atom_expect=expect_atoms,
-                features=sorted({'e2e', 'reuse_%d' % min(max(uses.values()), 8)} | ({'node_mult'} if 'node_mult' in feats else set()) | ({'explicit_annotated_hydrogen'} if has_h else set()) | ({'annotated_single_atom_fragment'} if single_atom else set())),
+    via = rng.choice([None, None, 'read', 'rebuilt'])
+    return dict(kind='e2e', via_graph=via, string=string, base_expect=[oracles.expected_attrs(nd) for nd in nodes], atom_expect=expect_atoms,
+                features=sorted({'e2e', 'reuse_%d' % min(max(uses.values()), 8)} | ({'node_mult'} if 'node_mult' in feats else set()) | ({'explicit_annotated_hydrogen'} if has_h else set()) | ({'annotated_single_atom_fragment'} if single_atom else set()) | ({'base_graph_via_from_graph'} if via else set())),
                 reuse=max(uses.values()))
 
 
@@ -187,7 +188,24 @@ def run(case):
                 'sample': {'level': case['level'], 'spellings': case['spellings'], 'expect': exp}}
     s = case['string']
     try:
-        cg, aa = MoleculeResolver.from_string(s).resolve()
+        if case.get('via_graph'):
+            import cgsmiles
+            cut = s.index('}.{')
+            base = cgsmiles.read_cgsmiles(s[:cut + 1])
+            if case['via_graph'] == 'rebuilt':
+                # the same graph built by hand: nodes inserted in another order
+                import networkx as nx
+                import random as _r
+                nodes = list(base.nodes(data=True))
+                _r.Random(len(s)).shuffle(nodes)
+                g2 = nx.Graph()
+                g2.add_nodes_from((n, dict(d)) for n, d in nodes)
+                g2.add_edges_from((a, b, dict(d)) for a, b, d in base.edges(data=True))
+                base = g2
+            cg, aa = MoleculeResolver.from_graph(s[cut + 2:], base).resolve()
+            s = s + f' (base graph passed to from_graph, {case["via_graph"]})'
+        else:
+            cg, aa = MoleculeResolver.from_string(s).resolve()
     except SyntaxError as err:
         contracts.clear()
         return {'violations': [], 'rejected': {'not_resolvable': 1}, 'nontrivial': False, 'cls': ('rejected',), 'sample': s}
